@@ -1708,11 +1708,11 @@ class Optimizer:
             1 - self.consts_for_optimizer["MEAT_WASTE_RETAIL"] / 100
         )
 
-        # Add in the constraint that meat eaten is less than the maximum consumed that month.
+        # Add in the constraint that the meat eaten so far (initial stock minus what is left at the end of
+        # this month) never exceeds the meat slaughtered so far: meat cannot be eaten before it is produced.
         conditions["Meat_Eaten_Maximum"] = (
-            variables["meat_eaten"][month]
-            * 1
-            / (1 - self.consts_for_optimizer["MEAT_WASTE_RETAIL"] / 100)
+            self.consts_for_optimizer["meat_summed_consumption"]
+            - variables["meat_end"][month]
             <= self.time_consts["max_consumed_culled_kcals_each_month"][month]
         )
 
